@@ -1,4 +1,10 @@
 TEXT = {
+ "C09": {
+  "text": "Theorems for EVERY scalar type and an ARBITRARY day->hours function: the outward search returns the hours of date-i or date+i for the smallest i<=bound at which either has both twilights, date-i first (closest date, earlier on ties); it fails iff no date within the bound is good; the bound regenerated from ext_lat.rs is the length of the year; the all-prayers variant writes all six times of that date flagged extreme, the default variant exactly the missing twilights (flagged), leaving everything else untouched. The search/writers are tied to the code by the exhaustive-pattern extlat correspondence and adj; the falsifier compares with policy None on neighbouring dates to the second.",
+  "design_ref": "DESIGN.md §7 C09",
+  "note": "That a good day exists within the year for |lat|<=64 is not proved (astronomy); equality 'to the second' holds up to the 1-ulp difference between jd-i and the JD of date-i (h:m:s may differ only within 1 ms of a second boundary).",
+  "technique": "Lean 4 theorems generic in the scalar type (List.findSome? induction) + translator + differential correspondence",
+ },
  "C11": {
   "text": "Theorem over the reals for EVERY hour value and minute offset (bounded only by -2.4e6 h <= x < 4e9 h): hour_to_time succeeds (wrap loop within fuel, h<24, m<60, s<60) and returns exactly the stated function of the unrounded minute count M and second S of x wrapped into the day - None: truncated h:m:s; Normal: minute+1 iff S>=30; Special: that for the prayers in the regenerated set {Fajr,Dhuhr,Asr,Maghrib,Isha}, seconds dropped otherwise; Aggressive: minute+1 iff S>=1 - with carries through the hour and midnight by construction (clock of M+1); a rounded time is the minute of the unrounded one or the next. Validity/flag preservation is structural (to_prayer_time copies the flag). Bit-level correspondence on every mid-second of the day x 7 prayers x 4 modes (thorough) and the public API.",
   "design_ref": "DESIGN.md §7 C11",
